@@ -16,7 +16,7 @@ from props import own_common
 
 def run(ctx):
     return own_common.run(ctx, "C06", "c06",
-                          quick=(300, 40), thorough=(6000, 60),
+                          quick=(220, 40), thorough=(6000, 60),
                           assumptions=[
                               "b-tree page churn, record pagination, DATA_ALLOCATED/PageTracker and the "
                               "unprocessed-commit scan window are abstracted in the model (see coq/Txn/Own.v header); "
